@@ -81,7 +81,7 @@ class Rates:
         return x * self.r[b] / self.r[a]
 
 
-def gen_case(rng, rates, sep, aliases, targets):
+def gen_case(rng, rates, sep, aliases, targets, connectives=True):
     """-> (text, class, expected) ; expected = ('money', code, value, scale) | ('number', value, scale)"""
     rated = sorted(rates.r)
     a = rng.choice(rated)
@@ -94,7 +94,7 @@ def gen_case(rng, rates, sep, aliases, targets):
         COV.append(('currency as literal', a))
         return xt, 'literal', ('money', a, X, abs(X))
     if r < 0.6:
-        conn = rng.choice(['to ', 'as ', 'in ', 'into ', '', 'TO ', 'As '])
+        conn = rng.choice(['to ', 'as ', 'in ', 'into ', '', 'TO ', 'As ']) if connectives else ''
         tw = [w for w, c in targets.items() if c == b and w != b]
         tgt = rng.choice(tw) if (tw and rng.random() < 0.3) else rng.choice([b, b.upper(), b.capitalize()])
         want = rates.convert(X, a, b)
@@ -151,13 +151,13 @@ def fp_rates(fp):
     return out, '\n'.join(other)
 
 
-def add_eval(ops, rng, text):
+def add_eval(ops, rng, text, lang='en'):
     """one evaluation of `text`: through execute, or through the long-lived session of the history"""
     if rng.random() < 0.33:
         ops.append({'op': 'session_set_text', 's': 1, 'text': text})
         ops.append({'op': 'execute_session', 's': 1, 'via_session': True})
     else:
-        ops.append({'op': 'execute', 'lang': 'en', 'text': text})
+        ops.append({'op': 'execute', 'lang': lang, 'text': text})
 
 
 def run_shard(ctx):
@@ -171,12 +171,14 @@ def run_shard(ctx):
     all_codes = sorted(c for c in lex.currencies() if c not in zone_names and c not in lex.all_words('en') - set(lex.currencies()))
     while not ctx.out_of_time():
         sep = rng.choice(SEP_CONFIGS) if rng.random() < 0.5 else SEP_CONFIGS[0]
-        cfg = mon.cfg_with(dec=sep[0], thou=sep[1])
+        cfg = mon.cfg_with(dec=sep[0], thou=sep[1], noise=rng.random() < 0.25)
+        # money literals, sums, scaling, ratios and conversions without a connective need no words: every configured language reads them
+        lang = 'en' if rng.random() < 0.75 else rng.choice(lex.languages())
         rates = Rates()
         ops = [{'op': 'new_calc', 'seg': True}] + mon.gh.config_ops(cfg, seg=False)
         # a Session object that lives as long as the calculator: a third of the evaluations go through it ("a changed rate takes
         # effect in all later evaluations" - also in those of a session that converted the currency before the change)
-        ops += [{'op': 'session_new', 's': 1}, {'op': 'session_set_language', 's': 1, 'lang': 'en'}]
+        ops += [{'op': 'session_new', 's': 1}, {'op': 'session_set_language', 's': 1, 'lang': lang}]
         meta = {}
         n_hist = rng.randint(30, 300)
         pending_fp = None
@@ -212,8 +214,8 @@ def run_shard(ctx):
                         other = rng.choice(sorted(rates.r))
                         a, b = (code, other) if rng.random() < 0.5 else (other, code)
                         xs = rng.choice(AMOUNTS)
-                        text = '%s %s to %s' % (render_literal(xs, sep), a, b)
-                        add_eval(ops, rng, text)
+                        text = ('%s %s to %s' if lex.word_group(lang, 'conversion_group') else '%s %s %s') % (render_literal(xs, sep), a, b)
+                        add_eval(ops, rng, text, lang)
                         meta[len(ops) - 1] = ('eval', text, 'after-update', ('money', b, rates.convert(Fraction(xs), a, b), abs(rates.convert(Fraction(xs), a, b))), rates.version)
             elif rng.random() < 0.1:
                 # one and the same currency - rated or not - needs no rate: literal, identity conversion, + - / and scaling
@@ -225,7 +227,7 @@ def run_shard(ctx):
                 if form == 0:
                     text, exp = sp(xs), ('money', c, X, abs(X))
                 elif form == 1:
-                    text, exp = '%s %s%s' % (sp(xs), rng.choice(['to ', 'as ', 'in ', '']), c), ('money', c, X, abs(X))
+                    text, exp = '%s %s%s' % (sp(xs), rng.choice(['to ', 'as ', 'in ', '']) if lex.word_group(lang, 'conversion_group') else '', c), ('money', c, X, abs(X))
                 elif form == 2:
                     text, exp = '%s + %s' % (sp(xs), sp(ys)), ('money', c, X + Y, abs(X) + abs(Y))
                 elif form == 3:
@@ -235,13 +237,13 @@ def run_shard(ctx):
                 else:
                     n = rng.choice(['2', '3', '10', '7'])
                     text, exp = '%s * %s' % (sp(xs), n), ('money', c, X * Fraction(n), abs(X * Fraction(n)))
-                add_eval(ops, rng, text)
+                add_eval(ops, rng, text, lang)
                 meta[len(ops) - 1] = ('eval', text, 'same-currency' + ('' if c in BASE_RATED else ':no-rate'), exp, rates.version)
                 res.cover('currency in same-currency operations', c, len(all_codes))
             else:
                 del COV[:]
-                text, cls, exp = gen_case(rng, rates, sep, aliases, targets)
-                add_eval(ops, rng, text)
+                text, cls, exp = gen_case(rng, rates, sep, aliases, targets, connectives=bool(lex.word_group(lang, 'conversion_group')))
+                add_eval(ops, rng, text, lang)
                 meta[len(ops) - 1] = ('eval', text, cls, exp, rates.version)
                 for space, item in COV:
                     if 'pair' in space:
@@ -261,6 +263,7 @@ def run_shard(ctx):
                 res.cases += 1
                 res.note_rw(r)
                 res.count('class:' + cls)
+                res.count('lang:' + lang)
                 if ops[idx].get('via_session'):
                     res.count('evaluations_through_the_long_lived_session')
                 res.distinct.add(sep, version and (idx, ctx.shard, res.cases), text)
@@ -271,7 +274,7 @@ def run_shard(ctx):
                         res.sample({'separators': sep, 'rate_updates_before': version, 'text': text, 'observed': mon.describe(slot)})
                     continue
                 res.violation('money:%s%s%s' % (cls, ':after-updates' if version else '', ':session' if ops[idx].get('via_session') else ''), '%r (after %d rate updates%s): %s' % (text, version, ', through the re-used session' if ops[idx].get('via_session') else '', why),
-                              {'config': cfg, 'lang': 'en', 'text': text, 'observed': mon.describe(slot),
+                              {'config': cfg, 'lang': lang, 'text': text, 'observed': mon.describe(slot),
                                'ops': [o for o in ops[:idx] if o['op'] not in ('execute', 'fingerprint')] + [ops[idx]]})
             else:
                 _, name, code, new_rate, i0, i1, before_model = m
